@@ -42,6 +42,14 @@ class _Normalise(ast.NodeTransformer):
             return ast.copy_location(ast.Compare(left=n.comparators[0], ops=[_FLIP_OP[type(n.ops[0])]()], comparators=[n.left]), n)
         return n
 
+    def visit_Assign(self, n):
+        self.generic_visit(n)
+        # `x = x <op> e`  ->  `x <op>= e`  (one spelling of an accumulator update)
+        if len(n.targets) == 1 and isinstance(n.targets[0], ast.Name) and isinstance(n.value, ast.BinOp) and isinstance(n.value.left, ast.Name) \
+                and n.value.left.id == n.targets[0].id:
+            return ast.copy_location(ast.AugAssign(target=ast.Name(id=n.targets[0].id, ctx=ast.Store()), op=n.value.op, value=n.value.right), n)
+        return n
+
     def _block(self, stmts):
         out = []
         for s in stmts:
